@@ -8,6 +8,8 @@ evaluates (`decide`).  They are deliberately simple; nothing about zlib is claim
   inflate strips a one-byte stream header and copies the rest.
 * `toyB`: deflate swallows all input and emits only when flushed (like zlib at small sizes);
   inflate doubles every byte and takes all input at once (an expanding stream).
+* `toyC`: deflate as `toyA`; inflate doubles every byte but takes only as much input as the
+  output room needs (the usual behaviour of zlib on a large, highly compressible block).
 -/
 import Strophe.Spec.Zlib
 
@@ -282,6 +284,59 @@ theorem toyA_inflate_never_errors : ∀ i inp room, (toyA.inflate i inp room).2.
 
 theorem toyB_inflate_never_errors : ∀ i inp room, (toyB.inflate i inp room).2.2.2 = Gen.Zl.zOk ∨
     (toyB.inflate i inp room).2.2.2 = Gen.Zl.zBufError :=
+  fun _ _ _ => ite_cases _ _ _
+
+/-! ### toyC -/
+
+/-- doubling inflater that stops consuming when the output room is used up -/
+def lazyDblInflate (i : Hist) (inp : Bytes) (room : Nat) : Hist × Nat × Bytes × Int :=
+  let n := min inp.length ((room - i.pend.length + 1) / 2)
+  let all := i.pend ++ dbl (inp.take n)
+  ({ i with pend := all.drop room, cons := i.cons ++ inp.take n, prod := i.prod ++ all.take room },
+   n, all.take room, if n = 0 ∧ all.take room = [] then Gen.Zl.zBufError else Gen.Zl.zOk)
+
+def toyC : Codec :=
+  { D := Hist, I := Hist, dinit := {}, iinit := {}, deflate := copyDeflate, inflate := lazyDblInflate }
+
+theorem dbl_length (p : Bytes) : (dbl p).length = 2 * p.length := by
+  induction p with
+  | nil => rfl
+  | cons a t ih => simp only [dbl, List.flatMap_cons, List.length_append, List.length_cons,
+      List.length_nil] at ih ⊢; omega
+
+theorem lazyDblInflate_ok (i : Hist) (inp : Bytes) (room : Nat) (h : i.prod ++ i.pend = dbl i.cons) :
+    (lazyDblInflate i inp room).1.prod ++ (lazyDblInflate i inp room).1.pend =
+      dbl (lazyDblInflate i inp room).1.cons := by
+  unfold lazyDblInflate
+  simp only [List.append_assoc, List.take_append_drop, dbl_append, ← h]
+
+def toyC_inflate : HInflate toyC where
+  plain := dbl
+  ok i := i.prod ++ i.pend = dbl i.cons
+  cons i := i.cons
+  prod i := i.prod
+  plain_nil := rfl
+  init_ok := rfl
+  init_cons := rfl
+  init_prod := rfl
+  step_ok := fun i inp room h => lazyDblInflate_ok i inp room h
+  consumed_le := by intro i inp room _; exact Nat.min_le_left _ _
+  step_cons := by intro i inp room _; rfl
+  step_prod := by intro i inp room _; rfl
+  complete := by
+    intro i inp room h _ hlt
+    have hlt' : ((i.pend ++ dbl (inp.take (min inp.length ((room - i.pend.length + 1) / 2)))).take room).length
+        < room := hlt
+    have hok := lazyDblInflate_ok i inp room h
+    have hp : (lazyDblInflate i inp room).1.pend = [] := take_short_drop_nil _ _ hlt'
+    rw [hp, List.append_nil] at hok
+    refine ⟨?_, hok⟩
+    show min inp.length ((room - i.pend.length + 1) / 2) = inp.length
+    simp only [List.length_take, List.length_append, dbl_length] at hlt'
+    omega
+
+theorem toyC_inflate_never_errors : ∀ i inp room, (toyC.inflate i inp room).2.2.2 = Gen.Zl.zOk ∨
+    (toyC.inflate i inp room).2.2.2 = Gen.Zl.zBufError :=
   fun _ _ _ => ite_cases _ _ _
 
 end Strophe.Lemmas.CompressionToy
